@@ -101,6 +101,14 @@ type AcctD struct {
 	id int
 }
 
+// Lk is a lock-like type: nothing in it can be seen from outside, and its methods have pointer receivers.
+type Lk struct {
+	state int
+}
+
+func (l *Lk) Lock()   {}
+func (l *Lk) Unlock() {}
+
 // XIn is an imported struct with an unexported member.
 type XIn struct {
 	X int
@@ -269,6 +277,7 @@ type SrcF struct {
 		hidden int
 		Shown  int
 	}
+	Guard wext.Lk
 }
 
 type DstF struct {
@@ -285,6 +294,7 @@ type DstF struct {
 		Shown  int
 		More   bool
 	}
+	Guard wext.Lk
 }
 
 func CvNIn(n NIn) NIn          { return NIn{X: n.X + 1, Y: n.Y} }
